@@ -41,13 +41,25 @@ def run_case(cs, ctx):
     text = sp.render(spec, rng=rng, second_side=True, noise=True)
     path = en.write_file(ctx.workdir, text)
     argv = ['-f', path, '-na', str(spec['na'])] + sp.opts_to_argv(opts, rng)
+    other = None
+    if rng.random() < 0.2:
+        # environment action: another Solver object on the SAME unchanged file with other options
+        # is constructed and solved in the middle of the history ('other')
+        o2 = sp.make_opts(rng, spec, twopl=opts['twopl'])
+        if opts.get('bf'):
+            o2['twopl'] = opts['twopl']
+        other = ['-f', path, '-na', str(spec['na'])] + sp.opts_to_argv(o2, rng)
     n = rng.randint(3, 12)
     hist = ['solve'] + [rng.choice(['solve'] + GETTERS * 2) for _ in range(n - 1)]
     if rng.random() < 0.5:
         # make sure the interesting shape occurs often: g g solve g g
         g = rng.choice(GETTERS)
         hist = ['solve', g, rng.choice(GETTERS), g, 'solve', g, rng.choice(GETTERS), g][:max(5, n)]
-    case = {'cs': cs, 'argv': ['-f', '<file>'] + argv[2:], 'file': text, 'history': hist}
+    if other is not None and len(hist) >= 3:
+        hist.insert(rng.randint(2, len(hist) - 1), 'other_object_solves')
+        ctx.cnt('histories_with_a_second_object_on_the_same_file')
+    case = {'cs': cs, 'argv': ['-f', '<file>'] + argv[2:], 'file': text, 'history': hist,
+            'other_object_argv': None if other is None else ['-f', '<file>'] + other[2:]}
     ctx.cnt('histories')
     try:
         s = Solver(list(argv))
@@ -137,6 +149,16 @@ def run_case(cs, ctx):
             ctx.cnt('histories_with_time_limit_and_time_jumps')
         for call in hist:
             ctx.cnt('calls')
+            if call == 'other_object_solves':
+                try:
+                    TAP.enabled = False
+                    b = Solver(list(other))
+                    b.solve()
+                    b.get_results()
+                    b.get_debug()
+                except BaseException:
+                    ctx.cnt('other_object_failed')
+                continue
             if call == 'solve':
                 if not close_epoch():
                     return
